@@ -241,6 +241,14 @@ def c15_oligo(rep, d, inputs, tier):
     cases = []
     libres = {}
     for name, (paths, recs) in inputs.items():
+        if name == "nb":
+            # the long near-equal-share records: one setting, file and standard input (the two writers), one and four threads
+            for counts in (0, 1):
+                libres[(name, 3, "spc", counts, 0)] = None
+                for t in (1, 4):
+                    for src in ("fa", "fq", "stdin"):
+                        cases.append((name, 3, "spc", counts, 0, t, src))
+            continue
         for k in (3, 5, 7) if (tier == "thorough" or name == "in5") else (3, 5):
             for preset in ("csv", "tsv", "spc"):
                 for counts in (0, 1):
@@ -1063,7 +1071,25 @@ def c15(tier):
     base = lcg_records(4, 51, 40, 60, True)
     dup = [base[0], base[0], base[1], bytes(reversed(base[1])).translate(bytes.maketrans(b"ACGT", b"TGCA")), base[2], base[3], base[2], base[0]]
     inputs["dup"] = (write_inputs(d, "dup", dup, ids=[b"p1", b"p1", b"p2", b"p2", b"p3", b"p3", b"p3", b"p1"]), dup)
-    c15_oligo(rep, d, inputs, tier)
+    # pairs of records whose AAA/TTT shares (k = 3) are the two fractions with totals up to 40 000 closest to a
+    # 6-decimal rounding boundary, one on either side: almost equal values that are printed differently
+    nb = []
+    for i in range(24):
+        j = (774_965 + i * 35_711) % 1_000_000
+        tp, tq = 2 * j + 1, 2_000_000
+        a, b, c, e = 0, 1, 1, 1
+        while b + e <= 40_000:
+            mp, mq = a + c, b + e
+            if mp * tq < tp * mq:
+                a, b = mp, mq
+            else:
+                c, e = mp, mq
+        for num, den in ([(a, b), (c, e)] if i % 2 == 0 else [(c, e), (a, b)]):
+            if den >= 3000:
+                nb.append(b"A" * (num + 2) + b"C" * (den - num))
+    oligo_inputs = dict(inputs)
+    oligo_inputs["nb"] = (write_inputs(d, "nb", nb), nb)
+    c15_oligo(rep, d, oligo_inputs, tier)
     c15_refusals(rep, d, inputs)
     c15_others(rep, d, inputs, tier)
     c15_bin_sweep(rep, d, tier)
